@@ -70,7 +70,7 @@ def jsonable(o, depth=0):
             try:
                 o.encode("utf-8")
             except UnicodeEncodeError:
-                return o.encode("utf-8", "backslashreplace").decode("ascii")
+                return o.encode("ascii", "backslashreplace").decode("ascii")
             return o if len(o) <= 2000 else o[:2000] + f"...(+{len(o) - 2000})"
         return o
     if isinstance(o, float):
